@@ -210,7 +210,7 @@ Lemma accept_returns_ok c a t s1 s' kept granted refused rets :
   drained c t s1 s' kept granted refused -> Permutation rets (rets_lists granted refused) ->
   (granted <> [] -> mle (held s') (cap s1)) ->
   exists a', accept_returns a t rets = Some a' /\ a_held a' = held s' /\ a_cap a' = cap s' /\ a_cap0 a' = c /\
-             Permutation (a_pend a') (waiting s') /\ a_last a' = Some t.
+             Permutation (a_pend a') (waiting s') /\ a_last a' = Some t /\ NoDup (map wid (a_pend a')).
 Proof.
   intros Eh Ec Ec0 Pp Hnd Hw [D1 D2 D3 D4 D5 D6 D7 D8] Pr Hfit.
   set (W := waiting s1) in *.
@@ -295,6 +295,147 @@ Proof.
       - destruct (D8 p Hp) as (H1 & H2 & H3). rewrite H1, H2. cbn. lia. }
   cbn [negb].
   eexists. split; [reflexivity|]. cbn [a_held a_cap a_cap0 a_pend a_last].
-  split; [reflexivity|]. split; [now rewrite D3|]. split; [reflexivity|]. split; [|reflexivity].
-  rewrite D2. exact PN.
+  split; [reflexivity|]. split; [now rewrite D3|]. split; [reflexivity|]. split; [|split; [reflexivity|]].
+  - rewrite D2. exact PN.
+  - eapply Permutation_NoDup; [apply Permutation_sym, Permutation_map, PN|]. rewrite map_app.
+    clear - HnW HnK HdW. induction (map wid W) as [|x l IH]; cbn [app]; [exact HnK|].
+    inversion HnW as [|? ? Hni Hn']; subst. constructor.
+    + rewrite in_app_iff. intros [H|H]; [contradiction|]. apply (HdW x); [left; reflexivity|]. rewrite in_app_iff. auto.
+    + apply IH; [exact Hn'|]. intros y Hy. apply HdW. right. exact Hy.
+Qed.
+
+(* ---------- the simulation relation at quiet points ---------- *)
+
+Record rel (c : metric) (used : list N) (dls : list Z) (a : ast) (st : state) (tau : Z) : Prop := {
+  r_held : a_held a = held st;
+  r_cap : a_cap a = cap st;
+  r_cap0 : a_cap0 a = c;
+  r_pend : Permutation (a_pend a) (waiting st);
+  r_woken : woken st = [];
+  r_inv : inv c st;
+  r_nodup : NoDup (map wid (waiting st));
+  r_nofit : no_fit st;
+  r_quiet : forall x, In x (waiting st) -> (tau < wdl x)%Z;
+  r_last : match a_last a with Some t0 => (t0 <= tau)%Z | None => True end;
+  r_used : forall x, In x (waiting st) -> In (wid x) used /\ In (wdl x) dls
+}.
+
+(* the generic instant: acceptor and model agree after the scripted call's own effect ([a1] / [s1]),
+   the model's drain is summarised by [drained]; then the record is accepted and the relation holds
+   again at time t *)
+Lemma instant_rel c used used' dls a st tau t o a1 s1 s' kept granted refused rets :
+  rel c used dls a st tau -> (tau < t)%Z ->
+  accept_op a t o = Some a1 -> a_held a1 = held s1 -> a_cap a1 = cap s1 -> a_cap0 a1 = c ->
+  Permutation (a_pend a1) (waiting s1 ++ woken s1) -> NoDup (map wid (a_pend a1)) ->
+  (forall x, In x (waiting s1) ->
+     fitsb (held s1) (ww x) (cap s1) = false /\ exceedsb (ww x) (cap s1) = false /\ (t < wdl x)%Z) ->
+  (forall x, In x (waiting st) -> (t <= wdl x)%Z) ->
+  drained c t s1 s' kept granted refused -> Permutation rets (rets_lists granted refused) ->
+  (granted <> [] -> mle (held s') (cap s1)) -> inv c s' ->
+  (forall x, In x (waiting s1 ++ woken s1) -> In (wid x) used' /\ In (wdl x) dls) ->
+  exists a', accept_step a (mkIR t o rets) = Some a' /\ rel c used' dls a' s' t.
+Proof.
+  intros R Ht Eop Eh Ec Ec0 Pp Hnd Hw Hov D Pr Hfit Hinv' Hused.
+  destruct (accept_returns_ok c a1 t s1 s' kept granted refused rets Eh Ec Ec0 Pp Hnd Hw D Pr Hfit)
+    as (a' & Ea & Eh' & Ec' & Ec0' & Pp' & El' & Hnd').
+  exists a'. split.
+  - unfold accept_step. cbn [ir_t ir_op ir_rets].
+    replace (match a_last a with Some t0 => negb (t0 <? t)%Z | None => false end) with false.
+    2:{ pose proof (r_last _ _ _ _ _ _ R) as Hl. destruct (a_last a); [lia | reflexivity]. }
+    replace (existsb (fun p => (wdl p <? t)%Z) (a_pend a)) with false.
+    2:{ symmetry. apply not_true_is_false. intros H. apply existsb_exists in H. destruct H as (p & Hp & Hlt).
+        apply (Permutation_in _ (r_pend _ _ _ _ _ _ R)) in Hp. specialize (Hov p Hp). lia. }
+    rewrite Eop. exact Ea.
+  - destruct D as [D1 D2 D3 D4 D5 D6 D7 D8].
+    assert (Hle1 : mle (held s1) (held s')) by (rewrite D5; apply msum_mle).
+    constructor; try assumption.
+    + eapply Permutation_NoDup; [apply Permutation_map, Pp' | exact Hnd'].
+    + intros x Hx. rewrite D2 in Hx. rewrite D3. apply in_app_iff in Hx. destruct Hx as [Hx|Hx].
+      * destruct (Hw x Hx) as (H1 & H2 & _). split; [eapply fitsb_false_mono; eauto | exact H2].
+      * destruct (D8 x Hx) as (H1 & H2 & _). auto.
+    + intros x Hx. rewrite D2 in Hx. apply in_app_iff in Hx. destruct Hx as [Hx|Hx]; [apply Hw, Hx | apply D8, Hx].
+    + rewrite El'. lia.
+    + intros x Hx. apply Hused. rewrite D2 in Hx. apply in_app_iff in Hx. apply in_app_iff.
+      destruct Hx as [Hx|Hx]; [left; exact Hx | right].
+      eapply Permutation_in; [exact D4|]. apply in_app_iff. left. exact Hx.
+Qed.
+
+(* ---------- timer instants ---------- *)
+
+Lemma timer_instant c used dls prefer a s tau x :
+  rel c used dls a (fst (fst s)) tau -> min_waiter (waiting (fst (fst s))) = Some x ->
+  let s1 := drain_all true prefer (sim_step true (clear_ob s) (wdl x) (ETimer (wid x))) (wdl x) in
+  exists a', accept_step a (mkIR (wdl x) None (rets_of (snd s1))) = Some a' /\
+             rel c used dls a' (fst (fst s1)) (wdl x) /\
+             (length (waiting (fst (fst s1))) < length (waiting (fst (fst s))))%nat.
+Proof.
+  intros R M. destruct s as [[st tr] ob]. cbn [fst] in *.
+  destruct (min_waiter_spec _ _ M) as [Hx Hmin].
+  unfold clear_ob, sim_step. cbn [fst snd step flat_map rev app].
+  set (s0 := (broadcast st, (wdl x, ETimer (wid x)) :: tr, @nil sobs)).
+  assert (Hinv0 : inv c (fst (fst s0))).
+  { unfold s0. cbn [fst]. exact (inv_step c st (wdl x) (ETimer (wid x)) (r_inv _ _ _ _ _ _ R) I). }
+  unfold drain_all.
+  destruct (drain_full c prefer (wdl x) (length (woken (fst (fst s0)))) s0 Hinv0 (le_n _))
+    as (Hinv' & kept & granted & refused & delta & D & Eob & Pob & Hfit).
+  set (s1 := drain true prefer (length (woken (fst (fst s0)))) s0 (wdl x)) in *.
+  cbn zeta. unfold s0 in Eob. cbn [snd] in Eob. rewrite app_nil_r in Eob.
+  assert (Ew : woken (fst (fst s0)) = waiting st).
+  { unfold s0, broadcast. cbn. now rewrite (r_woken _ _ _ _ _ _ R). }
+  assert (Ewt : waiting (fst (fst s0)) = []) by reflexivity.
+  assert (P1 : (tau < wdl x)%Z) by (apply (r_quiet _ _ _ _ _ _ R); exact Hx).
+  assert (P2 : accept_op a (wdl x) None = Some a) by reflexivity.
+  assert (P3 : a_held a = held (fst (fst s0))) by (unfold s0; cbn; apply (r_held _ _ _ _ _ _ R)).
+  assert (P4 : a_cap a = cap (fst (fst s0))) by (unfold s0; cbn; apply (r_cap _ _ _ _ _ _ R)).
+  assert (P5 : Permutation (a_pend a) (waiting (fst (fst s0)) ++ woken (fst (fst s0))))
+    by (rewrite Ewt, Ew; cbn [app]; apply (r_pend _ _ _ _ _ _ R)).
+  assert (P6 : NoDup (map wid (a_pend a)))
+    by (eapply Permutation_NoDup; [apply Permutation_sym, Permutation_map, (r_pend _ _ _ _ _ _ R) | apply (r_nodup _ _ _ _ _ _ R)]).
+  assert (P7 : forall y, In y (waiting (fst (fst s0))) ->
+     fitsb (held (fst (fst s0))) (ww y) (cap (fst (fst s0))) = false /\ exceedsb (ww y) (cap (fst (fst s0))) = false /\ (wdl x < wdl y)%Z)
+    by (rewrite Ewt; intros y []).
+  assert (P8 : forall y, In y (waiting st) -> (wdl x <= wdl y)%Z) by (intros y Hy; apply Hmin, Hy).
+  assert (P9 : Permutation (rets_of (snd s1)) (rets_lists granted refused)) by (rewrite Eob; exact Pob).
+  assert (P10 : forall y, In y (waiting (fst (fst s0)) ++ woken (fst (fst s0))) -> In (wid y) used /\ In (wdl y) dls)
+    by (rewrite Ewt, Ew; cbn [app]; apply (r_used _ _ _ _ _ _ R)).
+  destruct (instant_rel c used used dls a st tau (wdl x) None a (fst (fst s0)) (fst (fst s1)) kept granted refused (rets_of (snd s1))
+              R P1 P2 P3 P4 (r_cap0 _ _ _ _ _ _ R) P5 P6 P7 P8 D P9 Hfit Hinv' P10) as (a' & Ea & R').
+  exists a'. split; [exact Ea|]. split; [exact R'|].
+    destruct D as [D1 D2 D3 D4 D5 D6 D7 D8]. rewrite D2, Ewt. cbn [app].
+    rewrite Ew in D4. pose proof (Permutation_length D4) as Hl. rewrite !app_length in Hl.
+    assert (Hg : (length granted + length refused <> 0)%nat).
+    { intros H0. destruct granted; [|cbn in H0; lia]. destruct refused; [|cbn in H0; lia].
+      rewrite !app_nil_r in D4. apply Permutation_sym in D4.
+      pose proof (Permutation_in _ D4 Hx) as Hk. destruct (D8 x Hk) as (_ & _ & H). lia. }
+    lia.
+Qed.
+
+Lemma timers_accept c used dls prefer upto fuel : forall s a tau,
+  rel c used dls a (fst (fst s)) tau -> (length (waiting (fst (fst s))) < fuel)%nat ->
+  let '(s2, l) := fire_timers_s prefer fuel s upto in
+  exists a2 tau2, accept_run a l = Some a2 /\ rel c used dls a2 (fst (fst s2)) tau2 /\
+    match upto with
+    | Some T => forall x, In x (waiting (fst (fst s2))) -> (T < wdl x)%Z
+    | None => waiting (fst (fst s2)) = []
+    end /\
+    (match upto with Some T => (tau <= T)%Z -> (forall d, In d dls -> d <> T) -> (tau2 <= T)%Z /\ (tau <= tau2)%Z | None => True end).
+Proof.
+  induction fuel as [|f IH]; intros s a tau R Hlen; [lia|]. cbn [fire_timers_s].
+  destruct (min_waiter (waiting (fst (fst s)))) as [x|] eqn:M.
+  2:{ exists a, tau. split; [reflexivity|]. split; [exact R|]. rewrite (min_waiter_none _ M).
+      split; [destruct upto; [intros y [] | reflexivity] | destruct upto; [intros; lia | exact I]]. }
+  destruct (min_waiter_spec _ _ M) as [Hx Hmin].
+  destruct (match upto with Some T => (wdl x <=? T)%Z | None => true end) eqn:Edue.
+  2:{ exists a, tau. split; [reflexivity|]. split; [exact R|]. destruct upto as [T|]; [|discriminate].
+      split; [intros y Hy; specialize (Hmin y Hy); lia | intros; lia]. }
+  destruct (timer_instant c used dls prefer a s tau x R M) as (a' & Ea & R' & Hdec). cbn zeta in *.
+  set (s1 := drain_all true prefer (sim_step true (clear_ob s) (wdl x) (ETimer (wid x))) (wdl x)) in *.
+  specialize (IH s1 a' (wdl x) R' ltac:(lia)).
+  destruct (fire_timers_s prefer f s1 upto) as [s2 l].
+  destruct IH as (a2 & tau2 & Er & R2 & Hq & Hb).
+  exists a2, tau2. split; [cbn [accept_run]; rewrite Ea; exact Er|]. split; [exact R2|]. split; [exact Hq|].
+  destruct upto as [T|]; [|exact I]. intros HT Hgrid.
+  assert (HxT : (wdl x <= T)%Z) by lia.
+  assert (Hxq : (tau < wdl x)%Z) by (apply (r_quiet _ _ _ _ _ _ R); exact Hx).
+  destruct (Hb HxT Hgrid). lia.
 Qed.
